@@ -17,6 +17,7 @@ import sys
 sys.path.insert(0, os.path.dirname(os.path.dirname(os.path.abspath(__file__))))
 import common  # noqa: E402
 import gen_c17  # noqa: E402
+import gen_c15  # noqa: E402
 import translate_c17  # noqa: E402
 
 KINDS = ["seq", "thr", "loky", "mp", "cshm", "cproc"]
@@ -811,7 +812,7 @@ def run_life_stream(stream):
         env, cs = item
         if isinstance(env, str) and env.startswith("tf:"):
             extra = {"JOBLIB_TEMP_FOLDER": env[3:]}
-        elif env in (None, "tf-unset"):
+        elif env in (None, "tf-unset") or (isinstance(env, str) and env.startswith("scope-")):
             extra = {}
         else:
             extra = {"JOBLIB_START_METHOD": env}
@@ -920,6 +921,11 @@ def gen_pool_stream(tmp):
         {"mode": "nestednjobs", "base": "threading", "nested_n_jobs": 3},
         {"mode": "nestednjobs", "base": "multiprocessing", "nested_n_jobs": 3},
     ]
+    # the n_jobs of a block that has been left must not survive in the shared loky executor (own interpreters: fresh executors)
+    for k, (inner, after) in enumerate([(4, 2), (3, 2), (2, 4)]):
+        d = os.path.join(tmp, "scope-%d" % k)
+        os.makedirs(d, exist_ok=True)
+        out["scope-%d" % k] = [{"mode": "scope", "logdir": d, "inner": inner, "after": after}]
     return out, {"A": A, "C": C, "O": O, "E": E}
 
 
@@ -932,6 +938,27 @@ def oracle_pool(env, c, r, paths, prev=None):
     if "harness_error" in r:
         return "harness error " + r["harness_error"]
     envp = env[3:] if env.startswith("tf:") else None
+    if c["mode"] == "scope":
+        hw, pids = {}, {}
+        for q in ("q0", "q1"):
+            run_now = m_ = 0
+            for e in r["events"]:
+                if e["e"] in ("S", "E") and e["call"] == q:
+                    run_now += 1 if e["e"] == "S" else -1
+                    m_ = max(m_, run_now)
+            hw[q] = m_
+            pids[q] = len({e["pid"] for e in r["events"] if e["e"] == "S" and e["call"] == q})
+        if any(e["e"] == "T" for e in r["events"]):
+            return None      # a barrier timed out: inconclusive, never a violation
+        if r["n1"] != c["inner"] or r["n2"] != c["after"]:
+            return "n_jobs resolved to %s inside the block and %s after it, expected %d and %d" % (r["n1"], r["n2"], c["inner"], c["after"])
+        if hw["q1"] > c["after"]:      # (the number of distinct pids is not used: workers may legitimately be replaced during a resize)
+            return ("after `with parallel_config(n_jobs=%d): Parallel()(...)` was left, Parallel(n_jobs=%d) still ran %d tasks at once on %d "
+                    "worker processes (executor reused: %s, _max_workers %s): the block's setting leaked out of its scope" % (
+                        c["inner"], c["after"], hw["q1"], pids["q1"], r["executor_reused"], r["max_workers_after"]))
+        if hw["q0"] != c["inner"] or hw["q1"] != c["after"]:
+            return "high-water marks %s, expected %d then %d" % (hw, c["inner"], c["after"])
+        return None
     if c["mode"] == "nestednjobs":
         for w in r["workers"]:
             if w["context_n_jobs"] != c["nested_n_jobs"] or w["parallel_n_jobs"] != c["nested_n_jobs"]:
@@ -987,6 +1014,13 @@ def search_life(ctx):
                 bad, key = oracle_life(c, r)
             if bad and key is None:
                 return bad, dict(c, env=env)
+    npc = [{"backend": bk, "arg": a, "ctx": cx} for bk in ("multiprocessing", "loky") for a, cx in [("c", "<unset>"), ("<unset>", "r+")]]
+    rc, o, e = common.run_impl("c17_np_impl.py", input_text="\n".join(json.dumps(c) for c in npc) + "\n", timeout=600, py=common.PYNP)
+    for c, r in zip(npc, [json.loads(l) for l in o.splitlines() if l.strip()]):
+        want = c["arg"] if c["arg"] != "<unset>" else c["ctx"]
+        if "received" in r and any(rep[0] != "memmap" or rep[1] != want for rep in r["received"]):
+            return ("the %s workers received %s for an array above max_nbytes with mmap_mode=%r" % (c["backend"], r["received"][0][:3], want),
+                    dict(c, mode="np"))
     pstream, paths = gen_pool_stream(ctx.tmp)
     pres = run_life_stream(pstream)
     for env, cs in pstream.items():
@@ -1034,7 +1068,8 @@ def run(ctx):
             (gen_c17.generate_active_backend, "T_active_backend", "_get_active_backend"),
             (gen_c17.generate_mp_context, "T_mp_context", "Parallel.__init__ mp context / abort_everything"),
             (gen_c17.generate_backend_attrs, "T_backend_attrs", "class attributes of the backend classes"),
-            (gen_c17.generate_pool_settings, "T_pool_settings", "_get_temp_dir / backend kwargs merge")]
+            (gen_c17.generate_pool_settings, "T_pool_settings", "_get_temp_dir / backend kwargs merge"),
+            (gen_c15.generate_executor, "T_executor", "_resize / get_reusable_executor decisions")]
     rejected = set()
     for gen, fname, label in gens:
         try:
@@ -1142,6 +1177,16 @@ def run(ctx):
                                   "impl": iv, "model": v})
     n_obs += len(flats)
 
+    MODES = {"r": 1, "r+": 2, "w+": 3, "c": 4}
+    npcases = [{"backend": bk, "arg": a, "ctx": cx} for bk in ("multiprocessing", "loky")
+               for a, cx in [("<unset>", "<unset>"), ("c", "<unset>"), ("r+", "<unset>"), ("w+", "<unset>"), ("<unset>", "c"),
+                             ("<unset>", "r+"), ("r", "c"), ("c", "r+")]]
+    if quick:
+        npcases = [c for i, c in enumerate(npcases) if i % 8 in (0, 1, 2, 3, 4, 6)]
+    import concurrent.futures as cf_np
+    np_pool = cf_np.ThreadPoolExecutor(1)
+    np_future = np_pool.submit(common.run_impl, "c17_np_impl.py", (), "\n".join(json.dumps(c) for c in npcases) + "\n",
+                               None, 600, common.PYNP)      # runs while the other streams are executed
     # ---- second stream: start method (one interpreter per JOBLIB_START_METHOD value) and the life of one object
     ctx.coq_build(["Gen/T_mp_context.vo"])
     stream = gen_life_stream(ctx.rng, quick)
@@ -1206,6 +1251,9 @@ def run(ctx):
                 life_problems.append((bad, dict(c, env=env), r))
             if "harness_error" in r:
                 continue
+            if c["mode"] == "scope":
+                pool_stats["scope_histories"] = pool_stats.get("scope_histories", 0) + 1
+                continue
             if c["mode"] == "nestednjobs":
                 fnk = "batch_njobs_in_worker reduce_keeps_njobs" if use_mpc else "batch_njobs_in_worker true"
                 for w in r["workers"]:
@@ -1251,7 +1299,39 @@ def run(ctx):
         if parse_coq_lists(v) != iv:
             disagreements.append({"case": c, "function": "src_temp_folder / src_mp_pool_kwarg", "impl": iv, "model": v, "raw": r})
     n_obs += len(pexprs)
+
+    # ---- numpy stream (python3-vt): the mode of the memmap the worker REALLY receives
+    rc, npout, nperr = np_future.result()
+    npres = [json.loads(l) for l in npout.splitlines() if l.strip()]
+    np_stats = {"cases": len(npcases), "worker_reports": 0}
+    if len(npres) != len(npcases):
+        ctx.note("numpy stream unavailable (%s): the mmap_mode-in-workers observation was not made" % (nperr[-300:] or "no output"))
+        npres = []
+    npexprs, npmeta = [], []
+    for c, r in zip(npcases, npres):
+        if "harness_error" in r:
+            life_problems.append(("numpy stream: " + r["harness_error"], dict(c, mode="np"), r))
+            continue
+        want = c["arg"] if c["arg"] != "<unset>" else (c["ctx"] if c["ctx"] != "<unset>" else "r")
+        got_mode = "r+" if want == "w+" else want
+        for rep in r["received"]:
+            np_stats["worker_reports"] += 1
+            if rep[0] != "memmap" or rep[1] != got_mode or rep[2] != (got_mode != "r") or rep[3] != 3:
+                life_problems.append(("the %s workers received %s for an array above max_nbytes with mmap_mode=%r (explicit %r > context %r > "
+                                      "'r'): expected a memmap of mode %r, writable=%s" % (c["backend"], rep[:3], want, c["arg"], c["ctx"],
+                                                                                          got_mode, got_mode != "r"), dict(c, mode="np"), r))
+                break
+        passes = ("mp_pool_passes_mmap_mode" if c["backend"] == "multiprocessing" else "loky_executor_passes_mmap_mode") if use_ps else "true"
+        npexprs.append("[worker_mmap_mode %s %d]" % (passes, MODES[want]))
+        npmeta.append((dict(c, mode="np"), [MODES.get(r["received"][0][1], 0)], r))
+    if npexprs:
+        for (c, iv, r), v in zip(npmeta, ctx.coq_eval_lines(REQ_LIFE % (" JV.Gen.T_pool_settings" if use_ps else ""), "", npexprs, name="c17_np")):
+            if parse_coq_lists(v) != iv:
+                disagreements.append({"case": c, "function": "worker_mmap_mode", "impl": iv, "model": v, "raw": r})
+    n_obs += np_stats["worker_reports"]
     for bad, c, r in life_problems[:3]:
+        if isinstance(r, dict) and "events" in r:
+            r = {k: v for k, v in r.items() if k != "events"}
         ctx.violation(bad, {"kind": "oracle", "case": c, "impl": r}, True)
 
     # ---- decide
@@ -1312,6 +1392,7 @@ def run(ctx):
         "threads_per_case": sorted({len(c["threads"]) for c in cases}),
         "start_method_and_object_life": life_stats,
         "pool_temp_folder_and_kwargs": pool_stats,
+        "numpy_mmap_mode_in_workers": np_stats,
         "disagreements": len(disagreements),
         "translator_ok": translator_ok,
         "exhaustive": "depth<=2 over the reduced value set",
@@ -1328,6 +1409,22 @@ def replay(ctx, path):
     obj = json.load(open(path))
     rep = obj.get("replay", obj)
     c = rep.get("case") or rep.get("input")
+    if c and c.get("mode") == "np":
+        rc, o, e = common.run_impl("c17_np_impl.py", input_text=json.dumps(c) + "\n", timeout=300, py=common.PYNP)
+        r = json.loads(o.splitlines()[0]) if o.strip() else {"harness_error": e[-300:]}
+        want = c["arg"] if c["arg"] != "<unset>" else (c["ctx"] if c["ctx"] != "<unset>" else "r")
+        gm = "r+" if want == "w+" else want
+        bad = "harness_error" in r or any(rep[0] != "memmap" or rep[1] != gm or rep[2] != (gm != "r") for rep in r.get("received", []))
+        print("replay:", json.dumps(c), "->", json.dumps(r)[:300], "=>", "workers did not receive a %r memmap" % gm if bad else "property holds")
+        return 1 if bad else 0
+    if c and c.get("mode") == "scope":
+        d = os.path.join(ctx.tmp, "scope-replay")
+        os.makedirs(d, exist_ok=True)
+        cc = dict(c, logdir=d)
+        r = run_life_stream({"scope-replay": [cc]})["scope-replay"][0]
+        bad = oracle_pool("tf-unset", cc, r, None)
+        print("replay:", json.dumps(c), "=>", bad or "property holds")
+        return 1 if bad else 0
     if c and c.get("mode") == "pool-sequence":
         env = c.get("env")
         rs = run_life_stream({env: c["sequence"]})[env]
